@@ -116,7 +116,7 @@ func (g *generator) genDAG(maxDepth, nDirs int) genDir {
 	for i := 0; i < nDirs; i++ {
 		m := &remoteexecution.Directory{}
 		names := append([]string(nil), validNames...)
-		r2 := rng{r}
+		r2 := newRng(r)
 		r2.Shuffle(len(names), func(a, b int) { names[a], names[b] = names[b], names[a] })
 		take := func() string { n := names[0]; names = names[1:]; return n }
 		depth := 0
@@ -434,6 +434,9 @@ func genCase(rnd *hx.Rand, thorough bool) []string {
 	fresh := &refNode{kind: "dir", children: map[string]*refNode{}}
 	g.lines = append(g.lines, opLine("merge", nil, rootTok))
 	refExec(fresh, g.blobs, g.hashLen, "merge", []string{rootTok})
+	if rnd.Chance(1, 3) { // several explorers at once, each in its own order
+		g.lines = append(g.lines, fmt.Sprintf("cwalk %d %d", 2+rnd.Intn(4), rnd.Intn(1000)))
+	}
 	g.walkAll(fresh, 40)
 	return g.lines
 }
@@ -468,4 +471,23 @@ func genCacheCase(rnd *hx.Rand) []string {
 		lines = append(lines, fmt.Sprintf("cget %d %d %d %s %d", k, t, c, base, size))
 	}
 	return lines
+}
+
+// genNaiveCase: the eager build directory on a real file system, two or three
+// actions sharing one hard-link cache.
+func genNaiveCase(rnd *hx.Rand) []string {
+	g := &generator{rnd: rnd, blobs: map[string][]byte{}}
+	dfName := []string{"sha256", "md5"}[rnd.Intn(2)]
+	g.df = digest.MustNewFunction("verif", digestFunctions[dfName])
+	g.hashLen = hashLens[dfName]
+	g.lines = []string{fmt.Sprintf("opt part=naive df=%s cache=%d hardlink=%d hlmax=%d", dfName, []int{0, 8}[rnd.Intn(2)], rnd.Intn(2), []int{1, 3, 1000}[rnd.Intn(3)])}
+	root := g.genDAG(2+rnd.Intn(4), 2+rnd.Intn(7))
+	for i, n := 0, 2+rnd.Intn(2); i < n; i++ {
+		d := root
+		if rnd.Chance(1, 3) {
+			d = g.dirs[rnd.Intn(len(g.dirs))]
+		}
+		g.lines = append(g.lines, "nmerge "+tokDig(d.hash, d.size))
+	}
+	return g.lines
 }
